@@ -158,7 +158,9 @@ def build_dag(case, maxc=1, is_async=False, mk=None, attrs=None):
                 kw["twz_tag"] = case["call_tags"][str(i)]
             if viol is not None and viol["dst"] == i:
                 src = params[0] if viol["how"] == "param" else v[viol["src"]]
-                if viol["via"] == "arg":
+                if viol["via"] == "op":
+                    args.append(src * 2)  # through an operator node (an ordinary, non-setup, non-debug node)
+                elif viol["via"] == "arg":
                     args.append(src)
                 elif viol["via"] == "kw":
                     kw["extra"] = src
@@ -359,7 +361,7 @@ def other_seed_tables(cases, seed, repo):
 
 
 SUBVIA = ("subarg", "subflag", "subflag0")
-COMBOS = [(h, v) for h in ("node", "param") for v in ("arg", "kw", "flag") + SUBVIA if not (h == "param" and v in SUBVIA)]
+COMBOS = [(h, v) for h in ("node", "param") for v in ("arg", "kw", "flag", "op") + SUBVIA if not (h == "param" and v in SUBVIA)]
 
 
 def gen_violation(rng, case, k=None):
